@@ -174,6 +174,13 @@ pub fn worker_main(job_path: &Path) -> i32 {
             rlim_max: 4 << 30,
         };
         libc::setrlimit(libc::RLIMIT_AS, &lim);
+        // never outlive the parent (a hung worker would otherwise spin forever), and a CPU backstop
+        libc::prctl(libc::PR_SET_PDEATHSIG, libc::SIGKILL);
+        let cpu = libc::rlimit {
+            rlim_cur: 1800,
+            rlim_max: 1800,
+        };
+        libc::setrlimit(libc::RLIMIT_CPU, &cpu);
     }
     let Ok(txt) = std::fs::read_to_string(job_path) else { return 2 };
     let Ok(job) = serde_json::from_str::<Job>(&txt) else { return 2 };
@@ -404,7 +411,13 @@ fn run_inner(case: &Case, root: &Path, thorough: bool) -> Result<Stats, Failure>
     let exe = std::env::current_exe().map_err(|e| fail(format!("HARNESS: current_exe: {e}")))?;
     let mut start = 0usize;
     let mut consumed_by_reads = 0u64;
+    let mut hangs_here = 0u32;
     while start < nfaults {
+        if hangs_here >= 4 {
+            // every hang costs the full time-out: give up on this directory, the run ends with exit 2
+            stats.add("c10.faults_skipped_after_hangs", (nfaults - start) as u64);
+            break;
+        }
         job.start = start;
         std::fs::write(&job_path, serde_json::to_string(&job).unwrap_or_default()).map_err(|e| fail(format!("HARNESS: {e}")))?;
         let mut child = std::process::Command::new(&exe)
@@ -426,7 +439,7 @@ fn run_inner(case: &Case, root: &Path, thorough: bool) -> Result<Stats, Failure>
         });
         let mut in_flight: Option<usize> = None;
         loop {
-            match rx.recv_timeout(std::time::Duration::from_secs(30)) {
+            match rx.recv_timeout(std::time::Duration::from_secs(FAULT_TIMEOUT_S)) {
                 Ok(line) => {
                     if let Some(rest) = line.strip_prefix("B ") {
                         in_flight = rest.trim().parse().ok();
@@ -466,13 +479,20 @@ fn run_inner(case: &Case, root: &Path, thorough: bool) -> Result<Stats, Failure>
                     }
                 }
                 Err(std::sync::mpsc::RecvTimeoutError::Timeout) => {
+                    // a hang is neither an answer nor a violation: remember it (the check ends with exit 2
+                    // unless a real violation is found), restart the worker behind this fault, carry on
                     let _ = child.kill();
-                    let _ = child.wait();
-                    println!(
-                        "WATCHDOG: C10 worker hung on fault {:?} (inconclusive)",
-                        in_flight.map(|i| job.faults[i].clone())
-                    );
-                    std::process::exit(2);
+                    stats.bump("c10.hang");
+                    hangs_here += 1;
+                    note_hang(format!("{:?}", in_flight.map(|i| job.faults[i].clone())));
+                    match in_flight {
+                        Some(i) => {
+                            start = i + 1;
+                            in_flight = None;
+                        }
+                        None => start += 1,
+                    }
+                    break;
                 }
                 Err(std::sync::mpsc::RecvTimeoutError::Disconnected) => break,
             }
@@ -489,6 +509,23 @@ fn run_inner(case: &Case, root: &Path, thorough: bool) -> Result<Stats, Failure>
     }
     stats.add("c10.faults_detected_or_consumed", consumed_by_reads);
     Ok(stats)
+}
+
+const FAULT_TIMEOUT_S: u64 = 20;
+
+static HANGS: std::sync::Mutex<Vec<String>> = std::sync::Mutex::new(Vec::new());
+
+fn note_hang(what: String) {
+    if let Ok(mut h) = HANGS.lock() {
+        if h.len() < 5 {
+            h.push(what);
+        }
+    }
+}
+
+/// faults on which a worker exceeded its 20 s budget (first few)
+pub fn hangs() -> Vec<String> {
+    HANGS.lock().map(|h| h.clone()).unwrap_or_default()
 }
 
 pub fn nontrivial(s: &Stats) -> bool {
